@@ -127,6 +127,11 @@ goal		:  initlex sect1 sect1end sect2 initforrule
 
 			def_rule = mkstate( -pat );
 
+			/* The default rule matches any character, newline
+			 * included: yylineno must count it.
+			 */
+			rule_has_nl[num_rules] = true;
+
 			/* Remember the number of the default rule so we
 			 * don't generate "can't match" warnings for it.
 			 */
@@ -742,8 +747,11 @@ singleton	:  singleton '*'
 
 			++rulelen;
 
-            if (sf_dot_all())
+            if (sf_dot_all()) {
+                /* (?s:.) matches newline too */
+                rule_has_nl[num_rules] = true;
                 $$ = mkstate( -cclany );
+            }
             else
                 $$ = mkstate( -ccldot );
 			}
